@@ -1,6 +1,8 @@
 import Treepath.Spec.Has
 import Treepath.Model.Fns
 import Treepath.Proofs.EvalLemmas
+import Treepath.Proofs.HasRefine
+import Treepath.Proofs.Work
 /- C04 — has, has_all, has_any, has_not: existential tests and boolean algebra -/
 namespace Treepath.C04
 
@@ -13,12 +15,12 @@ theorem has_exists (steps : List (Step J)) (c : MNode J) (h : (evalE steps (.ima
   rw [hr] at h
   simp at h
   subst h
-  cases ns <;> simp [firstSuccess, J.truthy]
+  cases ns <;> simp [firstSuccess, J.truthy, hasTest]
 
 /-- functions are applied right-to-left: `f1(f2(x))` -/
 theorem fns_right_to_left (f1 f2 : Fn) (x v w : J) (h2 : f2.run x = .ok v) (h1 : f1.run v = .ok w) :
     (applyFns (α := J) [f1, f2] x).2 = .ok w := by
-  simp [applyFns, h1, h2]
+  simp [applyFns, applyFnStep, h1, h2]
 
 /-- the selected values are tried in selection order up to the first success -/
 theorem first_success_head (test : J → List (Ev J) × Except Exc J) (n : MNode J) (ns : List (MNode J))
@@ -77,6 +79,47 @@ theorem hasNot_hasNot (p : Pred J) (c : MNode J) (j : J) (h : (p c).res = .val j
   simp [hasNot, h, J.truthy]
 
 example : (match (hasS [.idxWc] (some (cmpFn .gt (.int 1))) [⟨"neg", fnNeg⟩]
+    (.root (.arr [.int 5, .int (-3)]))).res with | .val (.bool true) => true | _ => false) = true := by decide
+
+/-- the JSON instance of the has-family's context (tree documents, real budget) -/
+def cxJ : Ctx J := { view := J.view, toJ := id }
+
+/-- **the traverser's `has` is the definition's `has`** (end to end, through the pointer
+machine of the nested search): for every document, candidate, path of supported steps whose
+own predicates return values, comparison operator and function chain, the predicate the
+library builds returns what the existential first-success search over the definition's
+answer returns — unless the nested search ran out of its action budget (`IsInfra`, which for
+tree documents needs a step count above the budget; C20 bounds it). -/
+theorem machine_has_is_definition (ss : List (Step J)) (hq : Quiet ss) (hp : PredsClean ss.toArray)
+    (op : Option Fn) (fns : List Fn) (c : MNode J) :
+    IsInfra (has cxJ ss op fns c).res ∨ (has cxJ ss op fns c).res = (hasS ss op fns c).res :=
+  has_refines cxJ rfl rfl ss hq hp op fns c
+
+/-- for filter-free paths of supported steps no side condition is left -/
+theorem machine_has_is_definition_filterFree (ss : List (Step J))
+    (h : ∀ s ∈ ss, s.supported = true ∧ ∀ f, s ≠ .filter f) (op : Option Fn) (fns : List Fn) (c : MNode J) :
+    IsInfra (has cxJ ss op fns c).res ∨ (has cxJ ss op fns c).res = (hasS ss op fns c).res :=
+  machine_has_is_definition ss (quiet_of_filterFree ss h)
+    (clean_of_filterFree ss.toArray (by simpa using fun s hs => (h s hs).2)) op fns c
+
+/-- has-predicates compose: what a has-predicate emits never contains a result, a
+`StopIteration` or a raise of the enclosing search, and all its match attempts carry a
+candidate stamp — so a path whose filters are has-predicates meets the `PredsClean` premise
+of the theorems above and the `PredsStamped` premise of the work bound (C20) -/
+theorem has_filters_are_clean (ss : List (Step J))
+    (h : ∀ s ∈ ss, ∀ f, s = .filter f → ∃ ss' op fns, f = has cxJ ss' op fns) : PredsClean ss.toArray := by
+  intro s hs f hf n e he
+  obtain ⟨ss', op, fns, rfl⟩ := h s (by simpa using hs) f hf
+  exact inner_isClean e (has_evs_inner cxJ ss' op fns n e he)
+
+theorem has_filters_are_stamped (ss : List (Step J))
+    (h : ∀ s ∈ ss, ∀ f, s = .filter f → ∃ ss' op fns, f = has cxJ ss' op fns) : PredsStamped ss := by
+  intro s hs f hf n
+  obtain ⟨ss', op, fns, rfl⟩ := h s hs f hf
+  exact attemptsTop_of_inner _ (has_evs_inner cxJ ss' op fns n)
+
+/-- non-vacuity: a nested has over a real document, decided through the machine -/
+example : (match (has cxJ [.idxWc] (some (cmpFn .gt (.int 1))) [⟨"neg", fnNeg⟩]
     (.root (.arr [.int 5, .int (-3)]))).res with | .val (.bool true) => true | _ => false) = true := by decide
 
 end Treepath.C04
